@@ -178,6 +178,10 @@ def judge(i):
             r = SpaceGroup.from_symmetry_operations(red, expand_latt=sg.latt)
             if r.international_tables_number != e.number or sorted(int(s.integer_code) for s in r.symmetry_operations) != sorted(codes):
                 return f"{tag}: lookup from the reduced description (LATT {sg.latt}, {len(red)} ops) returned {r.international_tables_number}:{r.choice}"
+            # the same description (the very same list object) looked up a second time
+            r2 = SpaceGroup.from_symmetry_operations(red, expand_latt=sg.latt)
+            if r2.international_tables_number != e.number or sorted(int(s.integer_code) for s in r2.symmetry_operations) != sorted(codes):
+                return f"{tag}: second lookup from the same reduced description (LATT {sg.latt}, now {len(red)} ops) returned {r2.international_tables_number}:{r2.choice}"
         except Exception as ex:  # noqa
             return f"{tag}: lookup from the reduced description raised {type(ex).__name__}: {ex}"
     return None
@@ -192,8 +196,20 @@ def search(ctx, budget):
         r = judge(i)
         if r:
             ctx.fail(f"C02:{e.number}:{e.choice}", r, {"index": i, "number": e.number, "choice": e.choice})
+    # a second complete pass in the opposite order: the answers must not depend on which settings were asked about before
+    for i in reversed(range(n)):
+        e = entries()[i]
+        r = judge(i)
+        if r:
+            ctx.fail(f"C02:{e.number}:{e.choice}", "(second pass, reverse table order) " + r, {"index": i, "number": e.number, "choice": e.choice, "pass": "reverse"})
     ctx.note("exhaustive", True)
 
 
 def replay(ctx, obj):
+    if obj["input"].get("pass") == "reverse":
+        for i in reversed(range(len(entries()))):
+            r = judge(i)
+            if r and i == obj["input"]["index"]:
+                return r
+        return None
     return judge(obj["input"]["index"])
